@@ -340,6 +340,18 @@ def validate_h5(seed=0):
         if outs[0] != outs[1]:
             raise ModelMismatch(f"h5 error behaviour differs: {outs}")
         n += 1
+    # mixed element kinds without a declared dtype: numpy's coercion decides (numbers next to bytes become fixed-width text)
+    for k, payload in enumerate(([b'', 1, 12], [b'x', 2.5], ['a', 3], [b'', None])):
+        outs = []
+        for f in (real, model):
+            try:
+                ds = f.create_dataset('mixed%d' % k, shape=(len(payload),), dtype=None, data=payload)
+                outs.append(('ok', [norm(x) for x in ds[:]]))
+            except Exception as e:      # noqa
+                outs.append(('raise', type(e).__name__))
+        if outs[0] != outs[1]:
+            raise ModelMismatch(f"h5 mixed payload {payload!r}: {outs}")
+        n += 1
     # a closed file: same exception types for the same calls, falsy, contains nothing
     real.close()
     model.close()
